@@ -200,7 +200,7 @@ func init() {
 			h := fc.heapRaw(st, hn, arrSort(SInt, arrSort(SInt, es)))
 			arr := fc.allocRef(st)
 			na := fc.fresh("clonearr", arrSort(SInt, es))
-			fc.assume(st, T(SBool, fmt.Sprintf("(forall ((k Int)) (! (=> (and (<= 0 k) (< k %s)) (= (select %s k) (select %s (+ %s k)))) :pattern ((select %s k))))",
+			fc.assume(st, T(SBool, fmt.Sprintf("(forall ((k Int)) (! (=> (and (<= 0 k) (< k %s)) (= (select %s (ix 0 k)) (select %s (ix %s k)))) :pattern ((select %s (ix 0 k)))))",
 				slLen(s).S, na.S, tSelect(h, slArr(s)).S, slOff(s).S, na.S)))
 			fc.setHeap(st, hn, tStore(h, arr, na))
 			return fc.nameTerm("clone", mkSlice(arr, intLit(0), slLen(s), slLen(s)))
